@@ -212,8 +212,31 @@ def check_injective_slots(rep, facts, rule='R07.4'):
     return n
 
 
+def check_ids_distinct(rep, facts, rule='R07.7'):
+    """two suites that differ in one algorithm must differ in the suite id: the identifier constants of the implementations
+    of each algorithm trait are pairwise distinct (a duplicated id makes two different AEADs/KDFs/KEMs share a key schedule)"""
+    n = 0
+    for trait, cname in (('aead::Aead', 'AEAD_ID'), ('kdf::Kdf', 'KDF_ID'), ('kem::Kem', 'KEM_ID')):
+        seen = {}
+        impls = facts.impls_of(trait)
+        for im in impls:
+            v = (im.get('consts') or {}).get(cname)
+            n += 1
+            if not isinstance(v, int):
+                rep.undecided(rule, im['self_ty'], cname, v, 'a constant integer identifier', None)
+                continue
+            other = seen.get(v)
+            rep.check(other is None, rule, im['self_ty'], '%s-unique' % cname, '%s = 0x%04x%s' % (cname, v, '' if other is None else ' (also %s)' % other),
+                      'no other implementation of %s has the same %s' % (trait, cname), None)
+            seen.setdefault(v, im['self_ty'])
+    return n
+
+
 def run(ctx):
     rep, facts = ctx.rep, ctx.facts
+    nid = check_ids_distinct(rep, facts)
+    feats_ = facts.meta.get('features', [])
+    rep.floor('R07.7', 'algorithm identifier constants', nid, 4 + 3 + len([f for f in ('x25519', 'p256', 'p384', 'p521') if f in feats_]))
     n4 = check_injective_slots(rep, facts)
     rep.floor('R07.4', 'labeled_extract call sites', n4, 3)
     n3 = check_mode_injective(rep, facts)
